@@ -142,6 +142,17 @@ CHECKS = {
         "compared with the plain Euler run and sample 0 of simulate(cgmap=m) with aggregation spread back.",
         "Reflecting grids only (documented precondition). Maps whose connected groups share a centroid give "
         "a zero distance and non-finite trajectories; only sample 0 is meaningful there."),
+    "C12": (
+        "Hypothesis round-trip testing over four routes (dict, JSON text, save/load files, hand-assembled "
+        "multi-file layouts) with a canonical-content oracle; alias and default metamorphic relations",
+        "Exploration. Networks, grid and graph spaces, systems, scripts and trajectories built by constructors "
+        "from generated specs are serialised and read back through every route and compared by canonical "
+        "physical content (SI values rtol 1e-12, labels, stoichiometry, geometry, unit system at every level, "
+        "sampling parameters, processing mode, seed, t, data); re-serialising must give the same dictionary; "
+        "renaming keys to any accepted alias and omitting keys with documented defaults must give the same "
+        "object as the primary / explicit form.",
+        "Trusts vlib/canon.py (reads public attributes only) and vlib/si.py. Scratch files live under "
+        "/verif/.work with the process cwd elsewhere."),
 }
 
 NOT_BUILT = "check not built yet in this working session (planned; DESIGN.md section 4)"
